@@ -37,6 +37,21 @@ def ja_feats(small=False):
     return out
 
 
+def ja_feats_odd():
+    """three-part features outside the treebank's key order: permuted pairs, repeated keys
+    (values the constructor and the text reader accept like any other)"""
+    import itertools
+    out = []
+    for f in ja_feats(small=True)[::3]:
+        kvs = [f.kv1, f.kv2, f.kv3]
+        for perm in itertools.permutations(kvs):
+            out.append(TernaryFeature(*perm))
+        out.append(TernaryFeature(kvs[0], kvs[0], kvs[2]))
+        out.append(TernaryFeature(kvs[0], kvs[2], kvs[2]))
+        out.append(TernaryFeature(kvs[2], kvs[0], kvs[0]))
+    return out
+
+
 def ja_atoms(small=False):
     out = []
     for f in ja_feats(small):
